@@ -16,7 +16,7 @@ CHECKS = {   # seeded id -> [(property check, --only obligations or None)]
     'C04-a': [('C04', None)],
     'C05-a': [('C05', None)],
     'C06-a': [('C15', 'route_simple_vs_one_write,route_simple_vs_absent_read,route_simple_vs_empty_write'), ('C06', 'one_reply_read_tag,one_reply_write_tag')],
-    'C07-a': [('C07', 'bundle_reads_under_budget_4,bundle_reads_under_budget_12,bundle_reads_under_budget_16')],
+    'C07-a': [('C07', 'bundle_reads_under_budget_12_first1,bundle_reads_under_budget_12_first3,bundle_reads_under_budget_16_first2,bundle_reads_under_budget_16_first3')],
     'C08-a': [('C08', 'write_tag_inconsistent_fields_at1_off0,write_frag_inconsistent_fields_at0_off0,write_frag_inconsistent_fields_at1_off1'), ('C05', 'range_write_tag_UDINT,range_write_frag_INT')],
     'C10-a': [('C10', None)],
     'C11-a': [('C11', 'multibyte_plus,multibyte')],
